@@ -135,6 +135,17 @@ CHECKS = {
         note='Trusted base: precedence table lang.LEVEL transcribed from StlParser.g4 and the minimal-parentheses '
              'printer lang.to_variant.',
         ref='DESIGN.md §7 C15'),
+    'C14': dict(
+        technique='differential fuzzing monitor: parse() outcome (accept / RTAMTException / other exception / watchdog) '
+                  'on mutated texts vs an independent maximal-munch lexer + Earley recogniser of the .g4 grammars and '
+                  'interval side conditions; stderr capture of the ANTLR console listener; declared-vs-undeclared '
+                  'metamorphic run for identifiers',
+        text='Exploration: thousands of token-, character- and structure-level mutants of generated valid texts per '
+             'run; acceptance is only allowed for derivable texts, the only exception class allowed is '
+             'RTAMTException; termination is checked as bounded (20 s watchdog, firing = inconclusive).',
+        note='Trusted base: rtverif/grammar.py (validated on every text the generators print); rejection of a '
+             'derivable text with RTAMTException is not a violation.',
+        ref='DESIGN.md §7 C14'),
 }
 
 NOT_APPLICABLE = {}
